@@ -200,6 +200,8 @@ def _directed(variant: int, seed: int, tier: str) -> dict:  # noqa: PLR0915
     b.apeer(1, "own", tok="other_node", ai=1); pause()
     b.apeer(1, "own", tok="newest", ai=1, src="peer"); pause()
     b.apeer(1, "client:2", tok="sniff:2", ai=1); pause()
+    b.apeer(1, "own", tok="oldest", ai=1); pause()
+    b.apeer(1, "own", tok="newest", ai=1); pause()                              # finally an authorised one
     # rotations
     if long_mode:
         b.sleep(305)
@@ -273,6 +275,17 @@ def _net_case(seed: int, tier: str, mode: str) -> dict:  # noqa: C901, PLR0912, 
     def vals() -> list:
         return [list(rng.choice(VAL_KINDS)) for _ in range(rng.choice([1, 1, 1, 2, 3, 5]))]
 
+    def tok_src() -> tuple:
+        r = rng.random()
+        if r < 0.12:
+            x = rng.randrange(2)
+            return f"sniff:{x}", f"client:{x}"      # the address the token was issued to, another key
+        if r < 0.2:
+            return "other_id", "peer"               # same, with the other adversary identity's token and address
+        if r < 0.32:
+            return "oldest", "own"
+        return rng.choice(TOK_KINDS), rng.choice(SRC_KINDS)
+
     for hi in range(min(n, 4)):
         b.tok(0, hi)
         if rng.random() < 0.6:
@@ -293,11 +306,11 @@ def _net_case(seed: int, tier: str, mode: str) -> dict:  # noqa: C901, PLR0912, 
             if rng.random() < 0.6:
                 b.find(rng.randrange(n), key)
         elif r < 0.45:
-            b.astore(hi, rng.choice(keys), vals(), tok=rng.choice(TOK_KINDS), ai=rng.randrange(2),
-                     src=rng.choice(SRC_KINDS))
+            tk, sr = tok_src()
+            b.astore(hi, rng.choice(keys), vals(), tok=tk, ai=rng.randrange(2), src=sr)
         elif r < 0.55:
-            b.apeer(hi, rng.choice(["own", "own", "client:0", "client:1", "rand"]), tok=rng.choice(TOK_KINDS),
-                    ai=rng.randrange(2), src=rng.choice(SRC_KINDS))
+            tk, sr = tok_src()
+            b.apeer(hi, rng.choice(["own", "own", "client:0", "client:1", "rand"]), tok=tk, ai=rng.randrange(2), src=sr)
         elif r < 0.6:
             b.ops.append(["replay", hi, rng.choice(["own", "orig", "peer"])])
         elif r < 0.68:
@@ -310,7 +323,17 @@ def _net_case(seed: int, tier: str, mode: str) -> dict:  # noqa: C901, PLR0912, 
             b.find(rng.randrange(n), key)
         elif r < 0.86:
             who = rng.choice([-1, -1, hi])
-            if mode == "short" or rng.random() < 0.3:
+            if rng.random() < 0.35:
+                # the edge of the validity window: a token used one and two rotations after it was issued
+                ai = rng.randrange(2)
+                b.tok(ai, hi); b.sleep(0.6)
+                for _k in range(rng.choice([1, 2, 2, 3])):
+                    if mode == "short" or rng.random() < 0.5:
+                        b.ops.append(["rotate", who])
+                    else:
+                        b.sleep(301)
+                    b.astore(hi, rng.choice(keys), [["u", 20]], tok="newest", ai=ai); b.sleep(0.7)
+            elif mode == "short" or rng.random() < 0.3:
                 b.ops.append(["rotate", who])
             else:
                 b.sleep(rng.choice([150, 301, 301, 602]))
@@ -348,6 +371,18 @@ def cases(tier: str, base_seed: int):  # noqa: ANN201
             yield _net_case(seed, tier, "long")       # ~10 s of wall time each: one in sixteen
         else:
             yield _storage_case(seed, tier)
+
+
+def simplify(case: dict):  # noqa: ANN201
+    """Candidates tried by the shrinker after ddmin on ``ops``: no network faults, fewer nodes."""
+    if case.get("kind") != "net":
+        return
+    if case.get("knobs"):
+        yield {**case, "knobs": {}}
+    for n in (6, 8):
+        if int(case.get("n", 8)) > n:
+            yield {**case, "knobs": {}, "n": n}
+            yield {**case, "n": n}
 
 
 # ================================================================================================ harness' own codec
@@ -458,6 +493,7 @@ class Harness:
         self.prefix = b""
         self.ser = None
         self.limits = (170, 8)
+        self.errors: list = []
 
     # ------------------------------------------------------------------ bookkeeping helpers
     def stat(self, k: str) -> None:
@@ -657,9 +693,6 @@ class Harness:
                 c.violate("count_limit", "too_many_values_stored",
                           f"{name} stored {len(changed)} values from one store-request carrying {len(raw)} values "
                           f"(limit {self.limits[1]})")
-            if removed:
-                c.violate("authorised_writer", "store_request_removed_values",
-                          f"{name}: a store-request removed {len(removed)} stored value(s) under other ids")
         elif verdict in self.REFUSAL_PROBE:
             c.probe(self.REFUSAL_PROBE[verdict])
         if rec["intent"] == "replay_other_src" and not did:
@@ -849,6 +882,24 @@ class Harness:
         return out
 
     # ------------------------------------------------------------------ find oracle
+    def check_find_cache(self, cname, ov, offers: list) -> None:  # noqa: ANN001
+        """Values that appeared in the client's own Storage while its lookup ran (find results are cached locally)."""
+        cur = self.snap(ov)
+        last = self.last.get(cname) or {}
+        for k, (_ver, data, _ma, _lu) in sorted(cur.items()):
+            if k in last:
+                continue
+            src = sorted({(o["from"], _hx(o["key"][-8:])) for o in offers if data in o["values"]})
+            if not src:
+                continue
+            self.c.probe("find_result_cached_locally")
+            if len(data) > self.limits[0]:
+                self.c.violate("size_limit", "oversized_value_stored:find_result_cached_locally",
+                               f"{cname} ran find_values({_hx(k[1])}); a find-response from {src[0][0]} (key ..{src[0][1]}) "
+                               f"offered a {len(data)}-byte value (limit {self.limits[0]}); after the lookup the client's own "
+                               f"Storage holds it under that key (no token, no size check on the caching path of _find -> "
+                               f"store_on_nodes -> add_value) and serves it to later find-requests")
+
     def check_find(self, cname, key: bytes, res, offers: list) -> None:  # noqa: ANN001, C901
         c = self.c
         seen_all: list = []
@@ -910,6 +961,25 @@ class Harness:
             c.probe("forged_signature_filtered")
         c.nontrivial(f"find/{len(best)}/{forged_offered}/{any(len(v) > 1 for v in vers.values())}")
         self.world.trace.event("c15_find", cname, len(res), (len(best), forged_offered))
+
+
+def _guarded(fn):  # noqa: ANN001, ANN202
+    """Hooks run inside ipv8's receive path, which swallows exceptions: keep the first one and fail the case with it."""
+    def wrapper(self, *a, **k):  # noqa: ANN001, ANN002, ANN003, ANN202
+        try:
+            return fn(self, *a, **k)
+        except Exception:  # noqa: BLE001
+            import traceback
+            if not self.errors:
+                self.errors.append(traceback.format_exc()[-2000:])
+            return None
+    wrapper.__name__ = fn.__name__
+    return wrapper
+
+
+for _n in ("on_rotation", "before_maintenance", "after_maintenance", "enter_find", "note_find_response", "pre_request",
+           "post_request", "on_send"):
+    setattr(Harness, _n, _guarded(getattr(Harness, _n)))
 
 
 def make_classes(hs: Harness):  # noqa: ANN201
@@ -999,6 +1069,10 @@ async def _run_net(c: Case, case: dict) -> dict:  # noqa: C901, PLR0912, PLR0915
         node = SimNode(world, f"adv{j}", f"6.6.{j + 1}.66")
         await node.open()
         node.ov = node.add(adv_cls)
+        if j == 1:
+            # identity 1 never announces itself through the regular timer: whether a node holds it in ``store`` is
+            # decided by the scripted store-peer requests alone
+            node.call(node.ov.cancel_pending_task, "store_peer")
         hs.advs.append(node)
     hs.prefix = hs.honest[0].ov.get_prefix()
     hs.ser = hs.honest[0].ov.serializer
@@ -1133,6 +1207,7 @@ async def _run_net(c: Case, case: dict) -> dict:  # noqa: C901, PLR0912, PLR0915
                     hs.recording.pop(cl.name, None)
                 if res is not None:
                     hs.check_find(cl.name, key, res, offers)
+                hs.check_find_cache(cl.name, cl.ov, offers)
                 with world.as_node(cl.name):
                     hs.observe(cl.name, cl.ov, "find")
             elif kind == "tok":
@@ -1205,6 +1280,9 @@ async def _run_net(c: Case, case: dict) -> dict:  # noqa: C901, PLR0912, PLR0915
     await asyncio.sleep(1.0)
     checkpoint("checkpoint")
     net.on_send.remove(hs.on_send)
+    if hs.errors:
+        msg = "exception inside a harness hook:\n" + hs.errors[0]
+        raise RuntimeError(msg)
     return {"stats": dict(sorted(hs.stats.items())), "rotations": dict(sorted(hs.rot.items()))}
 
 
